@@ -645,6 +645,33 @@ def r18_10_reference_owned_node(ctx, rid='R18.10'):
     r.done()
 
 
+def r10_9_walk_reaches_registered_ancestors(ctx, rid='R10.9'):
+    """C10 speaks of the hooks of C's *registered ancestors*.  The walk over the bases descends only into registered classes, so it
+    stops at the first class that is not registered - a registered class further up (C(B), B(A), A and C registered, B not) is never
+    reached and its hook does not run (known finding F23)."""
+    P = ctx.P
+    r = ctx.rule(rid, 'the walk over the base classes reaches every registered ancestor: it does not end at an unregistered class '
+                      'that stands between two registered ones', floor=2)
+    for key, name in (('yatiml.loader:Loader.__savorize', '__savorize'), ('yatiml.representers:Representer.__sweeten', '__sweeten')):
+        f = fn(P, key)
+        rec = [c for c in f.calls(name) if f.live(c)]
+        gated, free = [], []
+        for c in rec:
+            loops = [l for l in S.enclosing_loops(c, f.node) if isinstance(l, ast.For)]
+            if not loops:
+                continue
+            bv = norm(loops[0].target)
+            reg_guard = [t for t in f.guard_texts(c) if t.startswith('%s in ' % bv) and ('registered' in t or 'yaml_representers' in t)]
+            (gated if reg_guard else free).append(c)
+        if not rec:
+            raise AnalysisError('anchor missing: recursive call of %s' % name)
+        r.check(bool(free) or not gated, '%s: the walk goes on through classes that are not registered' % f.fi.qual,
+                f.key('walk-stops-at-unregistered-base'), f.loc(gated[0]) if gated else f.loc(),
+                '%s descends only into registered base classes: with C(B), B(A) and only A and C registered, the walk from C ends at B and '
+                'A\'s hook is never called although A is a registered ancestor of C' % f.fi.qual)
+    r.done()
+
+
 def r10_8_each_class_once(ctx, rid='R10.8'):
     """"each called exactly once": the walk up the class hierarchy visits a class once. A recursion over __bases__ without a record
     of what was visited reaches a common ancestor once per path (diamond inheritance)."""
